@@ -58,6 +58,9 @@ type PyRequest struct {
 	// Class: definition name (matched ignoring case, '_' and '-')
 	Class string `json:"class,omitempty"`
 	Doc   string `json:"doc,omitempty"`
+	// Build: builder program (op "build"): Module is the builders module, the
+	// program's Builder the builder class name; nested programs use the same module
+	Build *BuildProgram `json:"build,omitempty"`
 }
 
 type PyResponse struct {
@@ -66,6 +69,10 @@ type PyResponse struct {
 	Missing bool   `json:"missing,omitempty"` // class not found
 	Encoded string `json:"encoded,omitempty"`
 	Class   string `json:"class,omitempty"`
+	// build
+	NoSuchOption string `json:"no_such_option,omitempty"`
+	// RaisedIn: "option" when an option call raised, "build" when build() did
+	RaisedIn string `json:"raised_in,omitempty"`
 }
 
 func (b *PyBatch) Exec(reqs []PyRequest) ([]PyResponse, error) {
@@ -118,11 +125,58 @@ def find_class(mod, name):
             return attr, getattr(mod, attr)
     return None, None
 
+class NoSuchOption(Exception):
+    pass
+
+def run_program(mod, prog):
+    attr, cls = find_class(mod, prog["builder"])
+    if cls is None:
+        raise NoSuchOption("builder " + prog["builder"])
+    b = cls()
+    for call in prog.get("calls") or []:
+        method = None
+        for name in dir(b):
+            if norm(name) == norm(call["option"]) and callable(getattr(b, name)) and not name.startswith("__"):
+                method = getattr(b, name)
+        if method is None:
+            raise NoSuchOption(call["option"])
+        args = []
+        for a in call.get("args") or []:
+            if a.get("builder") is not None:
+                args.append(run_program(mod, a["builder"]))
+            elif a.get("builders") is not None:
+                args.append([run_program(mod, p) for p in a["builders"]])
+            elif a.get("builder_map") is not None:
+                args.append({k: run_program(mod, p) for k, p in a["builder_map"].items()})
+            else:
+                args.append(json.loads(a["json"]))
+        method(*args)
+    return b
+
 def handle(req):
     resp = {"id": req["id"]}
     try:
         mod = importlib.import_module(req["module"])
         if req["op"] == "import":
+            return resp
+        if req["op"] == "build":
+            encoder = importlib.import_module(req["encoder"]).JSONEncoder
+            try:
+                b = run_program(mod, req["build"])
+            except NoSuchOption as e:
+                resp["no_such_option"] = str(e)
+                return resp
+            except BaseException as e:
+                resp["raised_in"] = "option"
+                resp["error"] = type(e).__name__ + ": " + str(e)
+                return resp
+            try:
+                obj = b.build()
+            except BaseException as e:
+                resp["raised_in"] = "build"
+                resp["error"] = type(e).__name__ + ": " + str(e)
+                return resp
+            resp["encoded"] = json.dumps(obj, cls=encoder)
             return resp
         attr, cls = find_class(mod, req["class"])
         if cls is None:
